@@ -107,7 +107,7 @@ def slot_state(m):
     for i in sorted(getattr(m, 'I', {})):
         it = m.I[i]
         its.append((i, tuple(sorted(repr(sorted(p.items())) for p in it.pending)), repr(sorted(it.current.items())) if it.current is not None else None,
-                    it.finished, tuple(sorted(repr(sorted(p.items())) for p in it.snapshot))))
+                    it.finished, tuple(sorted(repr(sorted(p.items())) for p in it.snapshot)), tuple(sorted(getattr(it, 'refusals', ())))))
     return (tuple(hs), tuple(ls), tuple(its))
 
 
